@@ -14,16 +14,22 @@
 //!   PARKS inside the callback at two kinds of points:
 //!     - `BeforeLock` (immediately before every `mutex.lock()` of a SHARED list): the
 //!       point is *enabled* iff the probe `is_free()` says the mutex is free. The probe
-//!       is evaluated by the controller only while every controlled thread is parked or
-//!       finished, so the answer cannot change before the chosen thread really locks.
+//!       is only evaluated while every controlled thread is parked or finished, so the
+//!       answer cannot change before the chosen thread really locks.
 //!     - `PointerEscaped` (between the lookup of an element pointer under the lock and
 //!       its use without the lock): always enabled.
-//!   Exactly one controlled thread runs at any time; the controller (`run_schedule`,
-//!   on the worker's main thread) waits on a condition variable until the running
-//!   thread parks or finishes, computes the enabled set, picks one thread according to
-//!   the schedule prefix / policy and wakes it. A thread woken at `BeforeLock` then
+//!   Exactly one controlled thread runs at any time. All scheduler state lives under
+//!   one mutex (`SCHED`). When the running thread parks or finishes, nobody runs; at
+//!   that moment the scheduling decision (`decide`) is taken under the mutex — on the
+//!   thread that just parked / finished, which saves two context switches per step —:
+//!   it computes the enabled set, picks one thread according to the schedule prefix /
+//!   policy, marks it `Running` and unparks it (or simply continues if it picked
+//!   itself). Everybody else stays blocked in `std::thread::park()` and re-checks its
+//!   state under the mutex after a wake-up. A thread released at `BeforeLock` then
 //!   really calls `lock()`, which succeeds at once: the mutex was free and nobody else
-//!   runs.
+//!   runs. The family's `run` (worker main thread, `run_schedule`) sets a schedule up,
+//!   starts the threads one at a time up to their first hook point, then only waits for
+//!   the outcome (with the watchdog) and collects the results.
 //! * Granularity. Lock RELEASE is not a separate yield point: after a release a thread
 //!   only executes thread-local code until its next hook point — the one exception, the
 //!   use of an escaped element pointer, has its own point (`PointerEscaped`). Moving a
@@ -40,14 +46,28 @@
 //!   abandoned instead); (3) linearizability = WGL-style search over the recorded
 //!   invocation/response history against `Vec<u64>` per list object.
 //! * Exploration: depth-first over scheduling choices with replay from a fresh state
-//!   (fresh lists, fresh threads) for every schedule.
+//!   for every schedule (fresh lists, fresh handles, fresh scheduler state; the OS
+//!   threads are pooled, a thread that was leaked / abandoned is replaced). A schedule
+//!   is the sequence of chosen thread indices; after the replayed prefix the policy is
+//!   "lowest enabled thread" (or seeded random); the enabled sets recorded at every step
+//!   give the next prefix. Configurations whose schedule count exceeds the cap get the
+//!   first `cap` schedules in DFS order plus seeded random schedules (`explore:capped`).
 //! * Abandoning a schedule (deadlock / stale pointer): parked threads that are inside
 //!   plain Rust frames leave by unwinding with a marker payload (`resume_unwind`, no
 //!   panic hook); guards and handles are released by the unwinding. A thread parked
 //!   below JIT frames (script call) cannot unwind: it is leaked (blocked forever); the
 //!   number of leaked threads is capped per case and per process.
-//! * Watchdog: if the running thread neither parks nor finishes within 10 s the case is
-//!   reported as `skipped: scheduler-watchdog` (never a violation).
+//! * Watchdog: if a schedule does not end within 10 s of wall clock (5 orders of
+//!   magnitude above its cost; the running thread neither parks nor finishes) the case
+//!   is reported as `skipped: scheduler-watchdog` (never a violation) and its threads
+//!   are abandoned. `--selftest hang` exercises this path, `--selftest model` breaks
+//!   the model on purpose (the oracle must object).
+//! * Signatures (closed set): `stale-pointer:{List::get|script-get}-vs-push@{u64|String}`,
+//!   `deadlock@<sorted labels of the operations in the cycle>`,
+//!   `not-linearizable@<operation whose result no linearization explains>`.
+//!   An unlocked `List::get` read that overlaps a `swap` of the same slot is a data race
+//!   below lock granularity (outside the property's quantifier): counted and tagged
+//!   (`hazard:unlocked-read:...`), not a verdict.
 
 use std::cell::{Cell, RefCell};
 use std::collections::HashSet;
@@ -1358,6 +1378,7 @@ pub struct ListSched {
     sched_cap: u64,
     rand_extra: u64,
     full_points: bool,
+    enum_only: bool,
     leak_cap: u64,
 }
 
@@ -1431,9 +1452,10 @@ impl ListSched {
             progs,
             sprogs,
             prelude,
-            sched_cap: num("sched-cap", if args.thorough() { 20_000 } else { 4_000 }),
-            rand_extra: num("rand-extra", if args.thorough() { 2_000 } else { 400 }),
+            sched_cap: num("sched-cap", if args.thorough() { 5_000 } else { 1_000 }),
+            rand_extra: num("rand-extra", if args.thorough() { 2_000 } else { 500 }),
             full_points: args.flag("full-points"),
+            enum_only: args.flag("enum-only"),
             leak_cap: num("leak-cap", 4),
         }
     }
@@ -1500,8 +1522,9 @@ impl ListSched {
         }
         let k = k - p;
         let total = self.n_enum();
-        if k % 4 != 3 {
-            let e = (k / 4) * 3 + k % 4;
+        // `--enum-only 1`: cases P .. P + n_enum are exactly the enumeration
+        if self.enum_only || k % 4 != 3 {
+            let e = if self.enum_only { k } else { (k / 4) * 3 + k % 4 };
             if e < total {
                 let mut stride = 1_000_003u64;
                 while gcd(stride, total) != 1 {
@@ -1833,9 +1856,12 @@ impl ListSched {
 impl Family for ListSched {
     fn n_cases(&self, args: &Args) -> u64 {
         // the whole 2 x <=2 enumeration is covered by prelude + ceil(4/3 * n_enum) cases
-        // (`--cases 162500`); the defaults are prefixes of the same strided order
-        let _full = self.prelude.len() as u64 + self.n_enum().div_ceil(3) * 4;
-        if args.thorough() { self.prelude.len() as u64 + 60_000 } else { self.prelude.len() as u64 + 6_000 }
+        // (`--cases 162440`); the defaults are prefixes of the same strided order
+        // (or, with `--enum-only 1`, by prelude + n_enum cases)
+        if self.enum_only {
+            return self.prelude.len() as u64 + self.n_enum();
+        }
+        if args.thorough() { self.prelude.len() as u64 + 16_000 } else { self.prelude.len() as u64 + 4_000 }
     }
 
     fn run(&mut self, k: u64, rng: &mut Rng, _args: &Args) -> CaseOut {
